@@ -1,6 +1,7 @@
 package checks
 
 import (
+	"strings"
 	"encoding/json"
 	"fmt"
 	"math"
@@ -24,6 +25,7 @@ type c20Spec struct {
 	Format string  `json:"format,omitempty"`
 	Offs   []int   `json:"offs,omitempty"` // series dates as offsets from the simulation start
 	Vals   []float64 `json:"vals,omitempty"`
+	Shape  int       `json:"shape,omitempty"` // layout of the series file: 0 our rows only; 1 rows of another id interleaved (file ordered by date); 2 another id's block before and after ours; 3 every row of ours listed twice; 4 another id first, ours interleaved with a third id
 	// sinus run
 	GH, GL, Phase int
 }
@@ -68,6 +70,10 @@ func init() {
 							v = append(v, c20Vals(pat, (i+si)%10))
 						}
 						out = append(out, c20Spec{Kind: "series", Format: f, Offs: offs, Vals: v})
+						if len(offs) > 1 {
+							// the same series inside files that also hold other ids or repeat rows (shape rotates)
+							out = append(out, c20Spec{Kind: "series", Format: f, Offs: offs, Vals: v, Shape: 1 + (si+pat)%4})
+						}
 					}
 				}
 			}
@@ -187,6 +193,39 @@ func c20Run(raw json.RawMessage, c *mc.Ctx) {
 			p.Config["GroundWaterPhase"] = fmt.Sprint(sp.Phase)
 			p.GWHi, p.GWLo = sp.GH, sp.GL
 		}
+		if sp.Kind == "series" && sp.Shape > 0 {
+			ds := func(iso string) string { return proj.DateStr(sp.Format, proj.D(iso)) }
+			var rows []string
+			ours := func(i int) string { return fmt.Sprintf("%s,%s,%g", p.SoilID, ds(p.GWSeries[i].Date), p.GWSeries[i].Level) }
+			other := func(id string, i int) string { return fmt.Sprintf("%s,%s,%g", id, ds(isoAdd(p.GWSeries[i].Date, 0)), 40-p.GWSeries[i].Level) }
+			n := len(p.GWSeries)
+			switch sp.Shape {
+			case 1:
+				for i := 0; i < n; i++ {
+					rows = append(rows, other("777", i), ours(i))
+				}
+			case 2:
+				for i := 0; i < n; i++ {
+					rows = append(rows, other("000", i))
+				}
+				for i := 0; i < n; i++ {
+					rows = append(rows, ours(i))
+				}
+				for i := 0; i < n; i++ {
+					rows = append(rows, other("999", i))
+				}
+			case 3:
+				for i := 0; i < n; i++ {
+					rows = append(rows, ours(i), ours(i))
+				}
+			case 4:
+				rows = append(rows, other("000", 0))
+				for i := 0; i < n; i++ {
+					rows = append(rows, ours(i), other("555", i))
+				}
+			}
+			p.Files = map[string]string{"gw_" + p.ID + ".csv": "SID,Date,Level\n" + strings.Join(rows, "\n") + "\n"}
+		}
 		word := make([]string, ndays-2)
 		for i := range word {
 			word[i] = "mild"
@@ -205,7 +244,7 @@ func c20Run(raw json.RawMessage, c *mc.Ctx) {
 					c.NonTrivial(h.Sum())
 				}
 				if math.Abs(g.GRW-want) > relTol(want) {
-					c.Violate("run-series-level "+sp.Format, fmt.Sprintf("series offsets %v values %v (%s): level used on day start+%d is %.10g, reference %.10g", sp.Offs, sp.Vals, sp.Format, zeit-start, g.GRW, want), nil)
+					c.Violate(fmt.Sprintf("run-series-level %s file-shape=%d", sp.Format, sp.Shape), fmt.Sprintf("series offsets %v values %v (%s): level used on day start+%d is %.10g, reference %.10g", sp.Offs, sp.Vals, sp.Format, zeit-start, g.GRW, want), nil)
 				}
 			} else {
 				doy := g.TAG.Num
